@@ -102,4 +102,10 @@ def hist (s : H) (h : Hist) : List Op → Hist
   | [] => h
   | op :: ops => hist (step s op).1 ((op, (step s op).2) :: h) ops
 
+/-- The model's log after `ops` from the initial state (newest event first). -/
+def logOf (ops : List Op) : Hist := hist init [] ops
+
+/-- The model's answer to `op` issued after the history `ops`. -/
+def answer (ops : List Op) (op : Op) : Resp := (step (exec init ops) op).2
+
 end Health
